@@ -350,6 +350,8 @@ class CandleFeedCheck(SessionCheck):
         out += [{'k': 10_000_000 + k, 'seed': run_seed('C20/fill', verif_seed, k), 'mode': 'fill'} for k in range(na)]
         out += [{'k': 20_000_000 + k, 'seed': run_seed('C20/store', verif_seed, k), 'mode': 'store'} for k in range(nb)]
         out += [{'k': 30_000_000 + k, 'seed': run_seed('C20/spacing', verif_seed, k), 'mode': 'spacing'} for k in range(nc)]
+        ni = t.get('import', 0) if runs is None else max(1, runs // 4)
+        out += [{'k': 40_000_000 + k, 'seed': run_seed('C20/import', verif_seed, k), 'mode': 'import'} for k in range(ni)]
         return out
 
     def run_one(self, arg):
@@ -365,6 +367,12 @@ class CandleFeedCheck(SessionCheck):
             case = gen_store_ops(arg['seed'])
             vs, counters = run_store_ops(case)
             return self.pack(arg, mode, case, vs, counters, f"store/{case['bucket']}/{case['tf']}/" + '.'.join(o[0][:4] for o in case['ops'])[:100])
+        if mode == 'import':
+            from . import c20_import as I
+            case = I.gen_case(arg['seed'])
+            vs, counters = I.run_import(case)
+            return self.pack(arg, mode, case, vs, counters,
+                             f"import/{case['count']}/{case['days']}/{case['p_lost']}/{case['crashes']}/{counters.get('fault_duplicated', 0)}/{counters.get('fault_shuffled', 0)}")
         vs, counters = run_spacing(arg['seed'])
         return self.pack(arg, mode, {'seed': arg['seed']}, vs, counters, 'spacing/' + ','.join(counters))
 
@@ -389,6 +397,10 @@ class CandleFeedCheck(SessionCheck):
         if mode == 'store':
             vs, counters = run_store_ops(case)
             return self.pack({}, mode, case, vs, counters, 'store')
+        if mode == 'import':
+            from . import c20_import as I
+            vs, counters = I.run_import(case)
+            return self.pack({}, mode, case, vs, counters, 'import')
         vs, counters = run_spacing(case['seed'])
         return self.pack({}, mode, case, vs, counters, 'spacing')
 
@@ -424,24 +436,28 @@ CHECK = CandleFeedCheck(
     prop='C20', profile=profile,
     monitors=lambda: [CandleMonitor(('C20',))],
     tiers={'quick': 200, 'thorough': 5_000},
-    extra_tiers={'quick': {'fill': 3000, 'store': 5000, 'spacing': 150}, 'thorough': {'fill': 150_000, 'store': 250_000, 'spacing': 3000}},
+    extra_tiers={'quick': {'fill': 3000, 'store': 5000, 'spacing': 150, 'import': 400}, 'thorough': {'fill': 150_000, 'store': 250_000, 'spacing': 3000, 'import': 20_000}},
     nontrivial=lambda r: True,
     rule=('(a) a fake exchange feed serves 1m batches for a drawn interval with message-loss faults (minutes missing at the start, in the '
           'middle, at the end, all but one, random), exact duplicates and shuffled order; every batch goes through the real '
           '_fill_absent_candles and must come back with exactly one candle per minute, strictly increasing, provided candles untouched, '
-          'missing minutes flat at the previous close (first known open before any candle) with zero volume [fallback form: the batches are '
-          'pushed through _fill_absent_candles directly, not through the import loop with its database]. (b) operation runs against a real '
+          'missing minutes flat at the previous close (first known open before any candle) with zero volume; both by pushing batches through '
+          '_fill_absent_candles directly and by running the REAL import loop (import_candles_mode.run) against the fake driver, a virtual '
+          'clock and the real Candle model bound to in-memory SQLite, with crash faults (the connection dies at a drawn batch; only the '
+          'database survives; the import is started again) - afterwards the table must hold exactly one row per minute of the imported '
+          'span, every served candle untouched, and a second import must change nothing. (b) operation runs against a real '
           'CandlesState (bucket sizes 3-40, 1m/3m/5m): newer, same-as-last, same-as-stored-older at every depth incl. index 0/1 and depth >= 20, '
           'older-unknown, batch_add_candle, add_multiple_1m_candles (new, identical re-delivery, overlap); after each the stored series must '
           'equal an ordered-map model (append / replace in place / nothing else changed). (c) research.backtest must reject input whose '
           'leading candles are not 60 s apart and accept correct input. Plus the in-session monitor: timestamps strictly increasing after '
           'every add in simulated sessions.'),
     assumptions=['whether an older, never-stored timestamp may raise is not stated: counted, not judged (the store must stay intact)',
-                 'the import loop itself (database, backup exchange, restart logic) is not driven; see DESIGN 5/C20'],
+                 'import loop: backup-exchange path and the "no data at the requested start" restart are not driven (the first minute of a batch is always served)'],
     real_components=['import_candles_mode._fill_absent_candles', 'CandlesState.add_candle/batch_add_candle/add_multiple_1m_candles',
                      'research.backtest spacing validation'] + COMMON_REAL,
-    stub_components=['exchange REST driver (fake batches)', 'candle database (not used)'] + COMMON_STUB,
-    fault_kinds=['fault_lost_minutes', 'fault_duplicated', 'fault_shuffled', 'fault_redelivery', 'fault_late_candle', 'fault_overlap'],
-    probes=['fills', 'ops', 'replaced_depth>=20', 'replaced_index_0_or_1', 'older_unknown_raised', 'older_unknown_inserted', 'older_unknown_ignored',
+    stub_components=['exchange REST driver (fake, lossy)', 'candle database: in-memory SQLite instead of Postgres', 'wall clock / sleep of the import loop (virtual)'] + COMMON_STUB,
+    fault_kinds=['fault_lost_minutes', 'fault_duplicated', 'fault_shuffled', 'fault_redelivery', 'fault_late_candle', 'fault_overlap',
+                 'fault_crash_mid_import', 'fault_restart'],
+    probes=['fills', 'ops', 'import_runs', 'fetch_calls', 'fill_calls', 'rows_checked', 'skipped_existing_batches', 'replaced_depth>=20', 'replaced_index_0_or_1', 'older_unknown_raised', 'older_unknown_inserted', 'older_unknown_ignored',
             'spacing_ok', 'spacing_5m', 'spacing_dup-first', 'spacing_reversed', 'spacing_2m', 'spacing_zero'],
 )
